@@ -1,3 +1,144 @@
-use crate::Ctx;
-pub fn probe(_ctx: &Ctx) {}
-pub fn dump(_ctx: &Ctx) {}
+//! C20 helpers: (probe) in an exact-math build the math helpers must *be* libm (runtime evidence that
+//! `--no-default-features` reaches the math crate); (dump) outputs of every stage for one seeded input
+//! set, written as raw f32 so that the driver can compare builds with each other.
+use crate::ev;
+use crate::gen::Rng;
+use crate::json::J;
+use crate::mon_math::LIB_EXPONENTS;
+use crate::mon_transfer::budget_c03;
+use crate::oracle::TRANSFERS;
+use crate::util::*;
+use crate::{Ctx, Tier};
+use std::io::Write;
+use yuvxyb::*;
+use yuvxyb_math::{cbrtf, expf, powf};
+
+fn ulps(a: f32, b: f32) -> u64 {
+    if a.is_nan() && b.is_nan() {
+        return 0;
+    }
+    if a.is_nan() != b.is_nan() {
+        return u64::MAX;
+    }
+    let key = |v: f32| -> i64 {
+        let b = v.to_bits() as i32;
+        (if b < 0 { i32::MIN.wrapping_sub(b) } else { b }) as i64
+    };
+    (key(a) - key(b)).unsigned_abs()
+}
+
+pub fn probe(ctx: &Ctx) {
+    let exact = !cfg!(feature = "fastmath");
+    ev::observe("harness_fastmath_feature", !exact);
+    if !exact {
+        ev::note("probe is only meaningful in a build without the fastmath feature");
+    }
+    let mut rng = Rng::new(ctx.seed, 0xC20);
+    let n: u64 = ctx.pick(1 << 20, 1 << 24);
+    let mut worst = [(0u64, 0f32, 0f32); 3];
+    for i in 0..n {
+        let x = if i % 2 == 0 { f32::from_bits(rng.below(0x7F00_0000) as u32 + 0x0080_0000) } else { rng.unit() as f32 };
+        let y = rng.pick(&LIB_EXPONENTS);
+        let a = ulps(powf(x, y), x.powf(y));
+        if a > worst[0].0 {
+            worst[0] = (a, x, y);
+        }
+        let xe = rng.range(-87.0, 88.0) as f32;
+        let b = ulps(expf(xe), xe.exp());
+        if b > worst[1].0 {
+            worst[1] = (b, xe, 0.0);
+        }
+        let xs = if rng.coin() { x } else { -x };
+        let c = ulps(cbrtf(xs), xs.cbrt());
+        if c > worst[2].0 {
+            worst[2] = (c, xs, 0.0);
+        }
+    }
+    for (k, name) in ["powf", "expf", "cbrtf"].iter().enumerate() {
+        let (u, x, y) = worst[k];
+        ev::observe(&format!("{name}_max_ulps_from_libm"), u);
+        if exact && u > 2 {
+            ev::violation(
+                format!("C20|not-libm|{name}"),
+                format!("built without the fastmath feature, yuvxyb_math::{name}({x:e}{}) is {u} ulp from libm: the exact-math switch does not reach the math crate", if k == 0 { format!(", {y}") } else { String::new() }),
+                J::obj().set("kind", "probe").set("fn", *name).set("x_bits", x.to_bits()).set("y_bits", y.to_bits()),
+            );
+        }
+    }
+    ev::sample(J::obj().set("probe", "powf(x, y) vs f32::powf for y in the library's exponents").set("pairs", n));
+    ev::add_evals(n * 3);
+    ev::add_nontrivial(n * 3);
+    ev::rule("exact-math probe: 2^20 (thorough 2^24) seeded random arguments per helper (powf with the library's exponents, expf on [-87,88], cbrtf on normals of both signs) compared with std's libm in ulps");
+}
+
+pub fn dump(ctx: &Ctx) {
+    let Some(path) = ctx.arg("dump") else {
+        ev::inconclusive("no --dump path");
+        return;
+    };
+    let n: usize = if ctx.tier == Tier::Thorough { 1 << 16 } else { 1 << 13 };
+    let mut rng = Rng::new(ctx.seed, 0xD0_C20);
+    let mut out: Vec<f32> = Vec::new();
+    let mut sections: Vec<J> = Vec::new();
+    let mut push = |name: String, vals: Vec<f32>, budget: f64, kind: &str, out: &mut Vec<f32>| {
+        sections.push(J::obj().set("name", name).set("count", vals.len()).set("budget", budget).set("kind", kind));
+        out.extend(vals);
+    };
+    // decode
+    for (m, full, depth) in [(MC::BT709, false, 10u8), (MC::BT2020NonConstantLuminance, true, 12), (MC::YCgCo, false, 8)] {
+        let maxc = 1u64 << depth;
+        let tri: Vec<[u32; 3]> = (0..n).map(|_| [rng.below(maxc) as u32, rng.below(maxc) as u32, rng.below(maxc) as u32]).collect();
+        let y: Yuv<u16> = mk_yuv(&tri, cfg444(m, full, depth));
+        let vals: Vec<f32> = Rgb::try_from(&y).map(|r| r.data().iter().flatten().copied().collect()).unwrap_or_default();
+        push(format!("decode:{m:?}:{depth}"), vals, 6e-6, "abs", &mut out);
+    }
+    // curves
+    let xs: Vec<[f32; 3]> = (0..n / 3 + 1).map(|i| if i % 2 == 0 { [rng.unit_bits(), rng.unit() as f32, rng.unit_bits()] } else { [rng.unit() as f32, rng.unit_bits(), rng.unit() as f32] }).collect();
+    for t in TRANSFERS {
+        for dir in 0..2 {
+            let r = if dir == 0 { lin_of(t, xs.clone()) } else { gam_of(t, xs.clone()) };
+            let vals: Vec<f32> = r.map(|v| v.iter().flatten().copied().collect()).unwrap_or_default();
+            // the two builds agree within the fastmath budget of the stage
+            let b = if t == TC::PerceptualQuantizer && dir == 1 { 5.7e-4 } else { 2.5e-4 };
+            let _ = budget_c03;
+            push(format!("curve:{t:?}:{}", if dir == 0 { "to_linear" } else { "to_gamma" }), vals, b, "abs", &mut out);
+        }
+    }
+    // xyb
+    let px: Vec<[f32; 3]> = (0..n / 3 + 1).map(|_| [rng.unit() as f32, rng.unit() as f32, rng.unit() as f32]).collect();
+    let np = px.len();
+    let x = Xyb::from(LinearRgb::new(px.clone(), np, 1).unwrap());
+    push("xyb:forward".into(), x.data().iter().flatten().copied().collect(), 4e-6, "abs", &mut out);
+    let back = LinearRgb::from(x);
+    push("xyb:roundtrip".into(), back.data().iter().flatten().copied().collect(), 1e-4, "abs", &mut out);
+    let h = Hsl::from(LinearRgb::new(px.clone(), np, 1).unwrap());
+    push("hsl:forward".into(), h.data().iter().flatten().copied().collect(), 1e-2, "abs", &mut out);
+    // math
+    let mut pv = Vec::with_capacity(n);
+    let mut evs = Vec::with_capacity(n);
+    let mut cv = Vec::with_capacity(n);
+    for _ in 0..n {
+        let xx = rng.unit() as f32 + f32::MIN_POSITIVE;
+        let y = rng.pick(&LIB_EXPONENTS[..12]);
+        let want = (xx as f64).powf(y as f64);
+        pv.push(if (1e-35..=1e35).contains(&want) { powf(xx, y) } else { 1.0 });
+        evs.push(expf(rng.range(-85.0, 85.0) as f32));
+        cv.push(cbrtf(f32::from_bits(rng.below(0x7F00_0000) as u32 + 0x0080_0000)));
+    }
+    push("powf:lib-exponents".into(), pv, 2.5e-4 + 8e-6 * 78.84375, "rel", &mut out);
+    push("expf:[-85,85]".into(), evs, 1e-5, "rel", &mut out);
+    push("cbrtf:normals".into(), cv, 2.4e-7, "rel", &mut out);
+
+    let mut f = std::fs::File::create(path).expect("create dump");
+    let mut bytes = Vec::with_capacity(out.len() * 4);
+    for v in &out {
+        bytes.extend_from_slice(&v.to_le_bytes());
+    }
+    f.write_all(&bytes).expect("write dump");
+    ev::observe("sections", J::Arr(sections));
+    ev::observe("values", out.len());
+    ev::sample(J::obj().set("dump", "seeded inputs through decode, 28 curve directions, XYB, HSL, powf/expf/cbrtf; raw f32 for cross-build comparison"));
+    ev::add_evals(out.len() as u64);
+    ev::add_nontrivial(out.len() as u64);
+    ev::rule("cross-build dump: identical seeded inputs in every build; the driver compares each build's outputs with the default build's, section by section, against the stage's fastmath budget");
+}
